@@ -7,7 +7,7 @@ Decides, from one-iteration summaries of the decoders (table bytes symbolic):
  R5 findlinestarts over co_lines(): yields on line change, skipping None lines (3.13's variant yields None lines, as dis 3.13)
  R6 which findlinestarts every opcode table binds
  R7 the yield guard under the dup_lines value that Bytecode passes by default
- (R4, the 3.11+ location table, is decided by C17's rules and re-used here.)"""
+ R4 the 3.11+ location-table entry decoding used by co_lines() (rule shared with C17-R3)"""
 from ..fold import ClassRef, FuncRef, Instance
 from ..report import AnalysisError
 from ..sve import (Cont, Fall, Guard, Lin, Op, Raise, Ret, Spec, Sym, Top, add, conjuncts, disjuncts, flatten_effects, leaves, show)
@@ -279,5 +279,10 @@ def run(rep, tier):
         colines_finder(f313, "3.13", True)
     else:
         rep.ob("R5", "xdis.opcodes.opcode_313", "3.13:own-finder", False, expected="a finder that yields None lines (dis 3.13)", derived=show(f313))
+    # ---------------------------------------------------------------- R4: 3.11+ line decoder (shared with C17-R3)
+    from .c17 import location_rules
+    rep.rule("R4", "3.11+ location table: per entry the code-unit count, line delta (incl. multi-byte zig-zag varints) and no-line marker used by co_lines() equal Objects/locations.md")
+    n4 = location_rules(rep, T, rule="R4", which=("decode_linetable_entry",))
+    rep.floor("3.11+ location-entry configurations", n4, 60)
     rep.assumptions = ["dis.findlinestarts of CPython 2.7, 3.6-3.13 (reference/dis_semantics.json 'line table')", "offset2line (binary search) is not decided: no sound rule formulated",
                        "the 3.11+ location table walk is decided under C17"]
